@@ -142,3 +142,83 @@ fn bkd_impl(args: &[&str], resume: bool) -> String {
     out.push("END".to_string());
     out.join(" | ")
 }
+
+
+// ---------------------------------------------------------------------------------------------
+// BKDC: the same loop over the REAL in-process channel transport (`ipc::chan`): its own receive (fit check, copy) is in the path
+
+struct ChanW {
+    inner: portus::ipc::chan::Socket<portus::ipc::Nonblocking>,
+    left: AtomicUsize,
+    flag: Arc<AtomicBool>,
+}
+
+impl Ipc for ChanW {
+    type Addr = u32;
+    fn name() -> String {
+        "chanw".into()
+    }
+    fn send(&self, _msg: &[u8], _to: &u32) -> portus::Result<()> {
+        Ok(())
+    }
+    fn recv(&self, msg: &mut [u8]) -> portus::Result<(usize, u32)> {
+        if self.left.load(Ordering::SeqCst) == 0 {
+            self.flag.store(false, Ordering::SeqCst);
+            return Err(portus::Error("stop".into()));
+        }
+        self.left.fetch_sub(1, Ordering::SeqCst);
+        self.inner.recv(msg).map(|(n, ())| (n, 0))
+    }
+    fn close(&mut self) -> portus::Result<()> {
+        Ok(())
+    }
+}
+
+/// `BKDC F:<fill> 0:<hex> 0:<hex> ...` (datagram items only, address 0): every datagram is queued on a crossbeam channel and
+/// received through `chan::Socket<Nonblocking>::recv` into the backend's 1024-byte buffer
+pub fn bkdc(args: &[&str]) -> String {
+    if args.is_empty() {
+        return "BADARG".into();
+    }
+    let fill = match args[0].strip_prefix("F:").and_then(|h| u8::from_str_radix(h, 16).ok()) {
+        Some(f) => f,
+        None => return "BADARG".into(),
+    };
+    let items: Option<Vec<Item>> = args[1..].iter().map(|t| parse_item(t)).collect();
+    let items = match items {
+        Some(i) => i,
+        None => return "BADARG".into(),
+    };
+    let (tx, rx) = crossbeam::channel::unbounded::<Vec<u8>>();
+    let (dummy_tx, _dummy_rx) = crossbeam::channel::unbounded::<Vec<u8>>();
+    let mut n = 0;
+    for it in items {
+        match it {
+            Item::Dgram(0, d) => {
+                let _ = tx.send(d);
+                n += 1;
+            }
+            _ => return "BADARG".into(),
+        }
+    }
+    let flag = Arc::new(AtomicBool::new(true));
+    let sock = ChanW { inner: portus::ipc::chan::Socket::new(dummy_tx, rx), left: AtomicUsize::new(n), flag: flag.clone() };
+    let mut buf = [fill; 1024];
+    let mut out = vec![];
+    {
+        let mut b = Backend::new(sock, flag, &mut buf[..]);
+        let mut guard = 0usize;
+        while let Some((m, a)) = b.next() {
+            out.push(format!("{} {}", a, crate::wire::show_msg(&m, 0)));
+            guard += 1;
+            if guard > 3_000 {
+                out.truncate(8);
+                out.push("RUNAWAY".into());
+                break;
+            }
+        }
+    }
+    drop(tx);
+    out.push("END".to_string());
+    out.join(" | ")
+}
